@@ -120,18 +120,49 @@ func (r *c18reader) Read(p []byte) (int, error) {
 	return n, nil
 }
 
+// c18readerWT is the same reader that also offers io.WriterTo (like bytes.Reader, bytes.Buffer or
+// bufio.Reader): WriteTo pushes the remaining stream in the reader's own fragment sizes. ReadFrom
+// must deliver the same packets whichever of the two interfaces it uses.
+type c18readerWT struct{ c18reader }
+
+func (r *c18readerWT) WriteTo(w io.Writer) (int64, error) {
+	var total int64
+	for r.pos < len(r.stream) {
+		n := r.pattern[r.k%len(r.pattern)]
+		r.k++
+		if n > len(r.stream)-r.pos {
+			n = len(r.stream) - r.pos
+		}
+		m, err := w.Write(r.stream[r.pos : r.pos+n])
+		r.pos += m
+		total += int64(m)
+		if err != nil {
+			return total, err
+		}
+		if m != n {
+			return total, io.ErrShortWrite
+		}
+	}
+	return total, nil
+}
+
 var c18patterns = [][]int{{188}, {1}, {187, 1}, {1, 187}, {94, 94}, {100, 88}, {50, 50, 88}, {63}, {376}, {2, 3, 5, 7, 11}}
 
 func VH_C18_ReadFrom() {
-	np := vrt.Choose("packets", 0, 2)
+	np := vrt.Choose("packets", 0, 2+2*vrt.Tier())
 	tailK := vrt.Choose("tail", 0, 2)
 	tail := []int{0, 1, 187}[tailK]
 	pat := vrt.Choose("pattern", 0, len(c18patterns)-1)
 	eofWithData := vrt.Choose("eofWithData", 0, 1) == 1
+	writerTo := vrt.Choose("readerIsWriterTo", 0, 1) == 1
 	stream := make([]byte, np*PacketSize+tail)
 	vrt.Bytes("stream", stream)
 	rec := &c18rec{failAt: -1}
-	rd := &c18reader{stream: stream, pattern: c18patterns[pat], eofWithData: eofWithData, failAfter: -1}
+	base := c18reader{stream: stream, pattern: c18patterns[pat], eofWithData: eofWithData, failAfter: -1}
+	var rd io.Reader = &base
+	if writerTo {
+		rd = &c18readerWT{base}
+	}
 	w := IOWriter(rec).(io.ReaderFrom)
 	cnt, err := w.ReadFrom(rd)
 	vrt.Assert(len(rec.got) == np, "every complete 188-byte packet of the stream is delivered, however the reader fragments it")
